@@ -189,6 +189,7 @@ func main() {
 	genJA3()
 	genCapture()
 	genH2Fp()
+	genProxy()
 	facts["issues"] = issues
 	keys := make([]string, 0, len(facts))
 	for k := range facts {
